@@ -10,6 +10,7 @@ REALS = ("ValueType is modelled by exact reals (type R): every 'equals its defin
          "the size and growth of IEEE rounding error is NOT decided by this check")
 
 UNITS = {
+    "indicator_over": dict(tpl="indicator_over.rs.tpl", doc="IndicatorInstance::over and IndicatorConfig::over, generic in the indicator"),
     "ind_more": dict(tpl="ind_more.rs.tpl", doc="indicators::{Envelopes, KeltnerChannel} (generic in the moving-average constructor)"),
     "reversal": dict(tpl="reversal.rs.tpl", doc="methods::{UpperReversalSignal, LowerReversalSignal, ReversalSignal}"),
     "window_serde": dict(tpl="window_serde.rs.tpl", doc="Window's hand-written Deserialize checks + snapshot round trip"),
@@ -38,6 +39,9 @@ UNITS = {
 }
 
 KANI_GROUPS = {
+    "result": dict(
+        src="kani/result.rs", append_to="src/core/indicator/result.rs", module="core::indicator::result::verif_result",
+        harnesses=[dict(name="vk_indicator_result_new", kind="complete", timeout=600, tier="quick")]),
     "witness": dict(
         src="kani/witness.rs", append_to="src/lib.rs", module="verif_witness",
         harnesses=[
@@ -96,6 +100,11 @@ KANI_GROUPS = {
         ]),
 }
 
+INDICATOR_UNITS = ["ind_macd", "ind_channels", "ind_rsi", "ind_more"]
+IND_DEPS = ["indicator_base", "ohlcv", "window", "sma", "st_dev", "highest_lowest", "highest_lowest_index", "ema", "wma"]
+COVERED_INDICATORS = "MACD, DonchianChannel, PriceChannelStrategy, BollingerBands, RelativeStrengthIndex, Envelopes, KeltnerChannel"
+
+
 PROPS = {
     "C01": dict(
         verus=["window"], kani=["window"],
@@ -151,7 +160,7 @@ PROPS["C04"] = dict(
 
 METHOD_UNITS = ["sma", "simple_window", "wma", "vwma", "st_dev", "mean_abs_dev", "compose_ma", "ema", "derived_window",
                 "candle_methods", "highest_lowest", "highest_lowest_index"]
-ALL_VERUS = ["window", "ohlcv"] + METHOD_UNITS + ["indicator_base", "combinators", "converters", "ind_macd", "ind_channels", "ind_rsi", "ind_more", "reversal", "window_serde"]
+ALL_VERUS = ["window", "ohlcv"] + METHOD_UNITS + ["indicator_base", "combinators", "converters", "ind_macd", "ind_channels", "ind_rsi", "ind_more", "reversal", "indicator_over", "window_serde"]
 
 PROPS["C08"] = dict(
     verus=ALL_VERUS,
@@ -198,26 +207,31 @@ PROPS["C07"] = dict(
 )
 
 PROPS["C09"] = dict(
-    verus=["combinators"],
+    verus=["combinators", "indicator_over", "compose_ma", "sma", "wma", "st_dev", "ema", "candle_methods", "mean_abs_dev"],
     forbid_in_src=[(r"static\s+mut\b|thread_local!|\bRefCell\b|\bCell<|Atomic(U|I|Bool)|\brand::|UnsafeCell|lazy_static|OnceCell|OnceLock", "no shared or interior-mutable state"),
                    (r"\bHashMap\b|\bHashSet\b", "no iteration-order nondeterminism")],
     claim=("Sequence::call, Method::over and Method::new_over are verified for an ARBITRARY M: Method (generic, against the trait contract) to return "
            "exactly the element-by-element run: a chain of states linked by M::step with one output per input; lemma_run_concat / lemma_run_split show "
            "that any split of the stream into consecutive chunks (empty ones included) gives the same chain. WithHistory and WithLastValue are verified "
-           "to perform exactly the wrapped method's step (peek returns a clone of the last output)."),
+           "to perform exactly the wrapped method's step (peek returns a clone of the last output). IndicatorInstance::over and IndicatorConfig::over are "
+           "verified the same way for an arbitrary indicator. peek of SMA, WMA, StDev, EMA, DEMA, TEMA, TSI, ADI, MeanAbsDev and TRIMA is verified to return "
+           "the value the last next produced (stored value, or the same expression over the same state)."),
     assumptions=["bit-identity of identically built instances and independence of clones are properties of safe Rust without shared/interior-mutable "
                  "state; they are ASSUMED and backed only by the source scan reported under coverage.src_scan",
-                 "Sequence::apply / Method::apply / new_apply (iter_mut), into_fn/new_fn/init_fn (boxed closures) and IndicatorInstance::over are not under contract",
+                 "Sequence::apply / Method::apply / new_apply (iter_mut) and into_fn/new_fn/init_fn (boxed closures) are not under contract",
                  "the iterator chain in Sequence::call is desugared by rule R8 over the slice-iterator model SliceIt"],
 )
 
 PROPS["C11"] = dict(
-    verus=["indicator_set"],
+    verus=["indicator_set"] + INDICATOR_UNITS, kani=["result"],
     claim=("IndicatorConfig::set of every shipped indicator (36; the `example` sample excluded) is extracted (its `match name` turned into a str_eq chain "
            "by rule R9) and verified against a contract GENERATED from the struct's public field list: for each public field the named parameter, and "
-           "only it, takes the parsed value and Ok is returned; on a parse error or any other name Err is returned and the configuration is unchanged."),
+           "only it, takes the parsed value and Ok is returned; on a parse error or any other name Err is returned and the configuration is unchanged. "
+           "Result shape: IndicatorResult::new is proved by Kani (every pair of input lengths 0..=6, symbolic contents: complete for the fixed capacity 4) to keep "
+           "min(4, n) values/signals in order and to report exactly those lengths; for the indicators under contract (see C05) next is verified to return "
+           "exactly the (values, signals) counts that size() announces."),
     assumptions=["strings are compared by their Seq<char> view (str_eq) and str::parse is an uninterpreted function of the text (abstract parsing)",
-                 "result shape, name(), default validity and dyn forwarding (core/indicator/dd.rs) are not covered by this check yet"],
+                 "name(), default validity and dyn forwarding (core/indicator/dd.rs) are not covered; the shape claim covers only " + COVERED_INDICATORS],
 )
 
 PROPS["C14"] = dict(
@@ -233,18 +247,14 @@ PROPS["C14"] = dict(
                  "warm-up steps (fewer than left+right+1 inputs) are exempt: the detector conflates the construction value with position 0"],
 )
 
-INDICATOR_UNITS = ["ind_macd", "ind_channels", "ind_rsi", "ind_more"]
-IND_DEPS = ["indicator_base", "ohlcv", "window", "sma", "st_dev", "highest_lowest", "highest_lowest_index", "ema", "wma"]
-COVERED_INDICATORS = "MACD, DonchianChannel, PriceChannelStrategy, BollingerBands, RelativeStrengthIndex, Envelopes, KeltnerChannel"
-
 PROPS["C05"] = dict(
-    verus=INDICATOR_UNITS + IND_DEPS,
+    verus=INDICATOR_UNITS + IND_DEPS, kani=["result"],
     claim=("For the indicators under contract (" + COVERED_INDICATORS + "; generic ones for an arbitrary moving-average constructor M) `next` is verified "
            "to return, as its raw values, the documented formula written over the component step relations (e.g. MACD: MA1(src) - MA2(src) and its "
            "signal line MA3(MACD); Bollinger: SMA +- sigma*StDev; Donchian: highest high / lowest low / midpoint), and `init` to seed each component "
            "as documented; with the component contracts of C02-C04 this is the formula on the candle history, by induction over next."),
     assumptions=[REALS, "only the indicators listed in the claim are covered; the other shipped indicators are not under contract",
-                 "IndicatorResult::new is used through an assumed contract (prefix copy, lengths min(4, n))",
+                 "IndicatorResult::new is used through a contract that is not verified in Verus; the same contract is proved by the Kani harness vk_indicator_result_new",
                  "std trait impls (IndicatorConfig/IndicatorInstance) are checked as inherent fns with the same bodies (R12)"],
 )
 PROPS["C06"] = dict(
